@@ -44,6 +44,18 @@ func (b *versionedKVBackend) upgradeCheck(next framework.OperationFunc) framewor
 			}
 		}
 
+		// All handlers go through here. The metadata of a secret is stored
+		// under its cleaned name (see encryptPath(...) in keysutil), while its
+		// lock and version data use the name as given. Refuse names which are
+		// not in their cleaned form (e.g., "foo/", "/foo", "foo//bar");
+		// otherwise they'd share the metadata of "foo" or "foo/bar" but not
+		// its versions. Listing operations take a folder and are exempt.
+		if req.Operation != logical.ListOperation && req.Operation != logical.ScanOperation {
+			if key, ok := data.GetOk("path"); ok && key.(string) != "" && strings.TrimPrefix(path.Clean(key.(string)), "/") != key.(string) {
+				return logical.ErrorResponse("invalid secret path %q: must not begin or end with a slash or contain consecutive slashes", key), logical.ErrInvalidRequest
+			}
+		}
+
 		return next(ctx, req, data)
 	}
 }
